@@ -455,6 +455,17 @@ Section Blind.
         destruct (inflow_loop P s1 (answered ans P items)) as [s2 rs]. cbn [fst snd combine rev]. rewrite <- app_assoc. reflexivity.
   Qed.
 
+  (* the input of the query to an in-flow item consists of the values its record carries (`ir_known`, `ir_avail_w`) -- the
+     values C10's K2 / K3 compare with the known dimensions and available width the implementation passed to the child *)
+  Lemma child_input_is_recorded P st (it : Item T) co :
+    position_is_absolute (it_position it) = false ->
+    bi_known (child_input P it) = ir_known (snd (inflow_step P st it co)) /\
+    s_w (bi_avail (child_input P it)) = Definite (ir_avail_w (snd (inflow_step P st it co))) /\
+    bi_parent (child_input P it) = mkSize (Some (p_outer_width P)) None /\ bi_mode (child_input P it) = PerformLayout.
+  Proof.
+    intros A. unfold inflow_step. rewrite A. cbv zeta. destruct (co_ct co); cbn; repeat split.
+  Qed.
+
   (* ------------------------------------------------------------------ C05: SetsZeroOnHidden *)
 
   (* Layout::with_order(i) *)
